@@ -1152,7 +1152,7 @@ func (schema *Schema) visitJSON(settings *schemaValidationSettings, value any) (
 		}
 	}
 
-	if schema.IsEmpty() && !schema.hasSubSchemas() {
+	if !schema.hasSubSchemas() && schema.IsEmpty() {
 		switch value.(type) {
 		case nil:
 			return schema.visitJSONNull(settings)
